@@ -545,10 +545,10 @@ func (db *SingleBucketBackend) ForceDeleteBucket(name string) error {
 		}
 	}
 
-	// Delete the bucket itself
-	if err := db.fs.RemoveAll("."); err != nil {
-		return err
-	}
+	// The bucket itself is the root of the filesystem this backend was given
+	// and cannot be deleted (see DeleteBucket); removing the root left MemMapFs
+	// in a state where every later Walk recursed forever, and a real
+	// directory without a place to create objects in.
 
 	return nil
 }
